@@ -3,6 +3,7 @@ package cmd
 import (
 	"os"
 
+	"github.com/pkg/errors"
 	"github.com/spf13/cobra"
 )
 
@@ -13,6 +14,12 @@ func init() {
 		Long:  `Init initializes a Dud project in the current directory.`,
 		Args:  cobra.NoArgs,
 		Run: func(cmd *cobra.Command, args []string) {
+			// Never clobber the index and config of an existing project.
+			if _, err := os.Lstat(indexPath); err == nil {
+				fatal(errors.New("project already initialized: " + indexPath + " exists"))
+			} else if !os.IsNotExist(err) {
+				fatal(err)
+			}
 			if err := os.MkdirAll(".dud/cache", 0o755); err != nil {
 				fatal(err)
 			}
